@@ -35,6 +35,32 @@ Proof.
     + rewrite <- E1. cbn [length]. rewrite app_length. lia.
 Qed.
 
+(* any fuel >= length l gives the same groups: every recursive call is on a strictly shorter rest *)
+Lemma split_m_length : forall l a b, split_m l = Some (a, b) -> (length b < length l)%nat.
+Proof.
+  induction l as [|c l IH]; intros a b H; cbn [split_m] in H.
+  - discriminate.
+  - destruct (N.eqb c CH_m) eqn:E.
+    + inversion H; subst. cbn [length]. lia.
+    + destruct (split_m l) as [[a' b']|] eqn:E2; [|discriminate].
+      inversion H; subst. cbn [length]. specialize (IH _ _ eq_refl). lia.
+Qed.
+
+Lemma take_groups_fuel : forall f1 f2 l, (length l <= f1)%nat -> (length l <= f2)%nat ->
+  take_groups f1 l = take_groups f2 l.
+Proof.
+  induction f1 as [|f1 IH]; intros f2 l H1 H2.
+  - destruct l; [|cbn [length] in H1; lia]. destruct f2; reflexivity.
+  - destruct f2 as [|f2]; [destruct l; [reflexivity|cbn [length] in H2; lia]|].
+    cbn [take_groups].
+    destruct l as [|a [|b l']]; try reflexivity.
+    destruct (N.eqb a ESC && N.eqb b LBR); [|reflexivity].
+    destruct (split_m l') as [[body rest]|] eqn:Es; [|reflexivity].
+    destruct rest as [|r0 rest]; [reflexivity|].
+    apply split_m_length in Es. cbn [length] in *.
+    rewrite (IH f2 (r0 :: rest)) by (cbn [length]; lia). reflexivity.
+Qed.
+
 Lemma strip_reset_app : forall l b r, strip_reset l = (b, r) ->
   l = (if b then reset_seq else []) ++ r.
 Proof.
@@ -61,7 +87,7 @@ Proof.
   - destruct l; [reflexivity|cbn [length] in Hl; lia].
   - cbn [expand_fuel]. destruct l as [|a l0]; [reflexivity|].
     remember (a :: l0) as l eqn:El.
-    destruct (take_groups (length l) l) as [p r] eqn:Et.
+    destruct (take_groups (S f) l) as [p r] eqn:Et.
     apply take_groups_app in Et. destruct Et as (E1 & E2 & E3).
     destruct r as [|c r']; [exfalso; apply E2; [subst l; discriminate|reflexivity]|].
     destruct (strip_reset r') as [rs r''] eqn:Es.
@@ -70,6 +96,30 @@ Proof.
     rewrite IH.
     + rewrite E1, Es. rewrite <- !app_assoc. reflexivity.
     + cbn [length] in E3. assert (length r'' <= length r')%nat by (rewrite Es, app_length; lia). lia.
+Qed.
+
+Lemma strip_reset_length : forall l b r, strip_reset l = (b, r) -> (length r <= length l)%nat.
+Proof.
+  intros l b r H. apply strip_reset_app in H. subst l. rewrite app_length. lia.
+Qed.
+
+Lemma expand_fuel_irrelevant : forall f1 f2 l, (length l <= f1)%nat -> (length l <= f2)%nat ->
+  expand_fuel f1 l = expand_fuel f2 l.
+Proof.
+  induction f1 as [|f1 IH]; intros f2 l H1 H2.
+  - destruct l; [|cbn [length] in H1; lia]. destruct f2; reflexivity.
+  - destruct f2 as [|f2]; [destruct l; [reflexivity|cbn [length] in H2; lia]|].
+    cbn [expand_fuel]. destruct l as [|a l0]; [reflexivity|].
+    remember (a :: l0) as l eqn:El.
+    rewrite (take_groups_fuel (S f1) (S f2) l H1 H2).
+    destruct (take_groups (S f2) l) as [p r] eqn:Et.
+    apply take_groups_app in Et. destruct Et as (_ & _ & E3).
+    destruct r as [|c r']; [reflexivity|].
+    destruct (strip_reset r') as [rs r''] eqn:Es.
+    apply strip_reset_length in Es.
+    assert (Hl : (1 <= length l)%nat) by (subst l; cbn [length]; lia).
+    cbn [length] in E3.
+    rewrite (IH f2 r'') by lia. reflexivity.
 Qed.
 
 Theorem expand_tiles_fact : forall t : text, collapse (expand t) = t.
@@ -633,7 +683,7 @@ Lemma strip_reset_yes : forall tail, strip_reset (reset_seq ++ tail) = (true, ta
 Proof. reflexivity. Qed.
 
 Lemma expand_fuel_step : forall f l p c r' rs r'',
-  l <> [] -> take_groups (length l) l = (p, c :: r') -> strip_reset r' = (rs, r'') ->
+  l <> [] -> take_groups (S f) l = (p, c :: r') -> strip_reset r' = (rs, r'') ->
   expand_fuel (S f) l = mkcell p c rs :: expand_fuel f r''.
 Proof.
   intros f l p c r' rs r'' Hl Ht Hs. cbn [expand_fuel].
@@ -658,7 +708,8 @@ Proof.
                ((if rst c then reset_seq else []) ++ collapse cs) (rst c) (collapse cs)).
     + rewrite (IH cs Hcs Hlen'). destruct c; reflexivity.
     + destruct (pre c); discriminate.
-    + apply take_groups_wf; [exact Hp| |exact Hl]. rewrite app_length. lia.
+    + apply take_groups_wf; [exact Hp| |exact Hl].
+      assert (length (pre c) <= length (full c))%nat by (unfold full; rewrite app_length; lia). lia.
     + destruct (rst c).
       * apply strip_reset_yes.
       * cbn [app]. apply strip_reset_wf. exact Hcs.
